@@ -235,6 +235,7 @@ def run(tier):
         "potrf data: H = L.L^H with integer (Gaussian integer) L, |offdiag| <= 2, diagonal in {1,2,4}: the factorization is exact in floating point and "
         "Lapack.tla checks the product exactly; the order k of the returned block is computed by integer Cholesky in TLA+",
         "geqrf/gesvd data: integer matrices |x| <= 8; results logged as round(x*4096); identities checked in fixed point (reconstruction to 1/16 absolute = 2^-7 of the entry bound, orthogonality to 2^-6)",
+        "geqrf operands with one size of 66 (long and thin, short and wide): only acceptance and the frame are demanded, not the reconstruction",
         "geqrf: QR of the view or of its transpose is accepted (the adaptor hands the row-major view to the column-major routine; it documents neither)",
         "gesvd: the third output is taken as V^T (A = U.diag(s).VT), as its template parameter name says",
         "views that must be accepted: all orientations for potrf; unit-inner-stride operands for geqrf/gesvd; transposed operands may be rejected",
